@@ -31,6 +31,7 @@ THEOREMS = [
     'Pyiga.Props.C07.boundary_restriction', 'Pyiga.Props.C07.bdspec_table', 'Pyiga.Props.C07.boundary_function_args',
     'Pyiga.Props.C07.arc_on_circle', 'Pyiga.Props.C07.arc_segment_on_circle', 'Pyiga.Props.C07.arc_endpoints',
     'Pyiga.Props.C07.quarter_annulus_radius', 'Pyiga.Props.C07.arcs_partial',
+    'Pyiga.Props.C07.translate_bspline_model', 'Pyiga.Props.C07.scale_bspline_model',
 ]
 MODULES = ['Pyiga.Model.Jet', 'Pyiga.Model.Geometry', 'Pyiga.Proofs.Jet', 'Pyiga.Proofs.Geometry', 'Pyiga.Props.C07']
 
